@@ -287,6 +287,24 @@ class C05(MergeFamProp):
             j = (len(gen) // 2 + i) % len(gen)
             gen[j] = {'docs': [{'raw': older}, {'raw': newer}], 'style': ['flow', 0, 0]}
             forced[j] = [where, PSIB_KEY, 7, rng.choice([{'prio': 1}, {'prio': 1}, {'prio': 1}, {}])]
+        # targeted family: a list whose elements carry their own priorities, patched through a mapping with index keys that holds
+        # deleting nodes - below a top-level key that is itself an INTEGER (and a valid position of that list) or a string: what
+        # the key above the list is called must not matter (seeded change S5-C05: the list's pre-filter looked absolute paths up
+        # inside the list)
+        for i in range(max(3, n // 12)):
+            ln = rng.choice([2, 3, 3])
+            def el():
+                kw = rng.choice([{}, {'prio': 1}, {'prio': 1}, {'prio': -1}])
+                return M([(rng.choice(['x', 'y']), S(rng.randrange(9)))], kw=kw) if rng.random() < 0.6 else S(rng.randrange(9), kw=kw)
+            top = rng.choice([0, 0, 1, ln - 1, 'lst', 'a'])
+            older = M([(top, Q([el() for _ in range(ln)]))])
+            patch = []
+            for ix in rng.sample(range(ln), rng.choice([1, 2])):
+                r = rng.random()
+                v = M([(rng.choice(['y', 'z']), S(rng.randrange(9)))], kw={'del': True}) if r < 0.5 else (Q([S(5)]) if r < 0.7 else S(30 + ix))
+                patch.append((ix if rng.random() < 0.8 else ix - ln, v))
+            newer = M([(top, M(patch))])
+            gen[(len(gen) // 3 + i) % len(gen)] = {'docs': [{'raw': older}, {'raw': newer}], 'style': ['flow', 0, 0]}
         for j, c in enumerate(gen):
             if j in forced and psib_applicable(c['docs'], forced[j][0], PSIB_KEY):
                 c['psib'] = forced[j]
